@@ -11,6 +11,7 @@ class Root:
 -/
 import XsdataModel.Bind.Parse
 import XsdataModel.Fault.Dict
+import XsdataModel.Bind.Union
 
 namespace Proofs.C15.Witness
 open Py Xs.Bind Xs.Fault
@@ -109,5 +110,54 @@ def o (kvs : List (String × J)) : J := .obj (kvs.map (fun kv => (kv.1.toList, k
 
 def Doc : ClassId := "Doc".toList
 def Plain : ClassId := "Plain".toList
+
+
+/-! ### a union field
+
+```python
+@dataclass
+class Item:
+    y: Optional[str] = field(default=None, metadata={"type": "Element"})
+    n: Optional[int] = field(default=None, metadata={"type": "Element"})
+
+@dataclass
+class Holder:
+    m: Union[int, Item, None] = field(default=None, metadata={"type": "Element"})
+```
+-/
+
+def uY : XmlVar := { varX with name := ['y'], localName := ['y'], qname := ['y'], types := [.prim .str], required := false }
+def uN : XmlVar := { varX with index := 2, name := ['n'], localName := ['n'], qname := ['n'], required := false }
+def uM : XmlVar := { varX with name := ['m'], localName := ['m'], qname := ['m'], types := [.prim .int, .cls "Item".toList],
+                               clazz := some "Item".toList, required := false, isClazzUnion := true }
+
+def metaItem : XmlMeta :=
+  { clazz := "Item".toList, qname := "Item".toList, targetQName := some "Item".toList, nillable := false,
+    text := none, choices := [], elements := [(['y'], [uY]), (['n'], [uN])], wildcards := [],
+    attributes := [], anyAttributes := [], wrappers := [] }
+
+def metaHolder : XmlMeta :=
+  { metaItem with clazz := "Holder".toList, qname := "Holder".toList, targetQName := some "Holder".toList,
+                  elements := [(['m'], [uM])] }
+
+def uctx : Ctx :=
+  { classes := [
+      { id := "Item".toList, metas := [(none, metaItem)], mro := ["Item".toList], bases := [],
+        fields := [⟨['y'], true, some .none⟩, ⟨['n'], true, some .none⟩] },
+      { id := "Holder".toList, metas := [(none, metaHolder)], mro := ["Holder".toList], bases := [],
+        fields := [⟨['m'], true, some .none⟩] }],
+    xsiIndex := [("Item".toList, ["Item".toList]), ("Holder".toList, ["Holder".toList])],
+    datatypes := [] }
+
+def Holder : ClassId := "Holder".toList
+
+/-- `<Holder><m>12</m></Holder>` -/
+def uDocInt : Tree := el "Holder" [] none [el "m" [] (some "12") []]
+/-- `<Holder><m><y>a</y><n>7</n></m></Holder>` -/
+def uDocItem : Tree := el "Holder" [] none [el "m" [] none [el "y" [] (some "a") [], el "n" [] (some "7") []]]
+/-- `<Holder><m><y>a</y><n>x</n></m></Holder>` : the strict trial of `Item` fails on `n` -/
+def uDocBad : Tree := el "Holder" [] none [el "m" [] none [el "y" [] (some "a") [], el "n" [] (some "x") []]]
+/-- `<Holder><m>abc</m></Holder>` : neither an int nor an Item with content … but an empty Item binds -/
+def uDocText : Tree := el "Holder" [] none [el "m" [] (some "abc") []]
 
 end Proofs.C15.Witness
